@@ -65,11 +65,17 @@ def failing_snippet(rng, uid):
         # ... while a class is being declared, while a for loop is running, while an import is in progress inside a function
         'fn lp%d() { for x in [1, 2, 3] { for y in [4, 5] { if y == 5 { throw "in loops"; } } } }\nlp%d();' % (uid, uid),
         'fn im%d() { import "badmod"; }\nim%d();' % (uid, uid),
+        # a resource limit is hit inside a try statement and the error still ends the snippet: finally only, a catch that throws again,
+        # a function that was returning through finally, a fiber
+        'fn ro%d(n) { return ro%d(n + 1); }\ntry { ro%d(0); } finally { print("fin-over%d"); }' % (uid, uid, uid, uid),
+        'fn ro%d(n) { return ro%d(n + 1); }\ntry { ro%d(0); } catch e { throw e; }' % (uid, uid, uid),
+        'fn ro%d(n) { return ro%d(n + 1); }\nfn wr%d() { try { return ro%d(0); } finally { var pad = [1]; } }\nwr%d();' % (uid, uid, uid, uid, uid),
+        'fn ro%d(n) { return ro%d(n + 1); }\nFiber.new(|| { try { ro%d(0); } finally { print("fiber-fin%d"); } }).call();' % (uid, uid, uid, uid),
     ]
     return d, d + fails[k] + "\n", k
 
 
-N_FAIL_KINDS = 22
+N_FAIL_KINDS = 26
 
 
 def ok_snippet(rng, uid, defined):
@@ -101,7 +107,12 @@ PROBE = ('try { print("p-try"); } finally { print("p-fin"); }\n'
          )
 # ... and resources close to their limits (40 fibers nested in one call chain, 57 call frames): only after many failed runs (these cost)
 PROBE_CAP = PROBE + ('fn pnest(n, f) { if n == 0 { return f(); } return Fiber.new(|| pnest(n - 1, f)).call(); }\nprint(pnest(40, || "p-nested"));\n'
-                     'fn prec(n) { if n == 0 { return 0; } return prec(n - 1) + 1; }\nprint(prec(55));\n')
+                     'fn prec(n) { if n == 0 { return 0; } return prec(n - 1) + 1; }\nprint(prec(55));\n'
+                     # the limits themselves, measured: how deep calls can nest (at top level, below 10 frames, in a fiber) before the
+                     # interpreter refuses - the same on an interpreter with a history of failures as on one without
+                     'fn pdepth(n) { try { return pdepth(n + 1); } catch e { return n; } }\nprint(pdepth(0));\n'
+                     'fn pdown(k) { if k == 0 { return pdepth(0); } return pdown(k - 1); }\nprint(pdown(10));\nprint(Fiber.new(|| pdepth(0)).call());\n'
+                     'fn plocals(n) { var a = n; var b = n; var c = n; var d = n; try { return plocals(n + 1); } catch e { return a + b + c + d; } }\nprint(plocals(0));\n')
 
 COMPILE_ERRORS = ["var = ;\n", "print(1;\n", "fn (x) {}\n", "{ var a = 1; var a = 2; }\n", "return 1;\n", "break;\n", "\"unterminated\n"]
 
@@ -204,6 +215,47 @@ def repeated_histories():
     return out
 
 
+# single-purpose probes, each run as the FIRST thing after a failed snippet (state that the first completed call / try / fiber switch of
+# the next snippet happens to put right again is still state that leaked): measured limits and the shortest uses of each mechanism
+FIRST_PROBES = [
+    'fn pdepth(n) { try { return pdepth(n + 1); } catch e { return n; } }\nprint(pdepth(0));\n',
+    'fn pover(n) { return pover(n + 1); }\ntry { pover(0); } catch e { print(type(e)); print(e.context); }\n',
+    'fn plocals(n) { var a = n; var b = n; var c = n; var d = n; try { return plocals(n + 1); } catch e { return a + b + c + d; } }\nprint(plocals(0));\n',
+    'fn pchain(n) { if n == 0 { return 0; } return pchain(n - 1) + 1; }\nprint(pchain(62));\n',
+    'print(Fiber.new(|| { fn fd(n) { try { return fd(n + 1); } catch e { return n; } } return fd(0); }).call());\n',
+    'try { print("p1-try"); } finally { print("p1-fin"); }\nprint("p1-after");\n',
+    'try { throw 7; } catch e { print(e); }\nprint("p2-after");\n',
+    'fn pr() { try { return "p3-ret"; } finally { print("p3-fin"); } }\nprint(pr());\n',
+    'var pf = Fiber.new(|| { Fiber.yield("p4-y"); return "p4-done"; });\nprint(pf.call());\nprint(pf.call());\n',
+    'class PC5 { #[static] fn s() { return "p5-static"; } }\nprint(PC5.s());\n',
+    'for x in [1, 2] { print(x); }\nprint((0..3).iter().map(|v| v * 2).collect());\n',
+    'import "okmod";\nprint(okmod.inc());\n',
+    'var big = []; var i = 0; while i < 300 { big.push([i]); i = i + 1; } print(big.len());\n',
+]
+
+
+def first_probe_histories():
+    """Every kind of failing snippet, once and three times, followed directly by ONE single-purpose probe."""
+    out = []
+    rng = vlib.SplitMix(11)
+    by_kind = {}
+    tries = 0
+    while len(by_kind) < N_FAIL_KINDS and tries < 20000:
+        tries += 1
+        d, f, k = failing_snippet(rng, 2000 + k_uid(tries))
+        by_kind.setdefault(k, (d, f))
+    for k, (d, f) in sorted(by_kind.items()):
+        for pi, probe in enumerate(FIRST_PROBES):
+            reps = 1 if (k + pi) % 2 == 0 else 3
+            # (the definitions of a failing snippet are idempotent enough to repeat: `var` / `fn` at top level re-declare)
+            out.append(([f] * reps + [probe], [d] * reps + [probe], ["fail%d" % k] * reps + ["probe"]))
+    return out
+
+
+def k_uid(t):
+    return t % 7
+
+
 def steps_of(snips):
     out = ["M:%s:%s" % (vlib.hx(n), vlib.hx(s)) for n, s in MODULES.items()]
     for s in snips:
@@ -245,7 +297,7 @@ def correspondence(ctx, model_ok=True):
     failures = []
     broken = ["reuse model out of date: " + p for p in prologue_matches_source()]
     n_hist = 3600 if ctx.thorough else 1500
-    hists = [gen_history(rng.fork("h%d" % i)) for i in range(n_hist)] + repeated_histories()
+    hists = [gen_history(rng.fork("h%d" % i)) for i in range(n_hist)] + repeated_histories() + first_probe_histories()
     corpus = progs.corpus_dir("C15")
     kinds_seen = {}
     residue_obs = {}
